@@ -8,6 +8,8 @@ import (
 	"context"
 	"encoding/json"
 	"fmt"
+	"io"
+	"os"
 	"strings"
 	"sync"
 	"sync/atomic"
@@ -21,7 +23,9 @@ import (
 	"verif/harness/internal/vf"
 
 	"github.com/yandex/pandora/core"
+	"github.com/yandex/pandora/core/datasource"
 	"github.com/yandex/pandora/core/engine"
+	"github.com/yandex/pandora/core/provider"
 	"github.com/yandex/pandora/core/schedule"
 	"pgregory.net/rapid"
 )
@@ -55,6 +59,24 @@ type Case struct {
 	// default of maxammosize) are generated only for http/json and grpc/json and only with maxammosize well above them.
 	Sizes       []int `json:"entry_sizes,omitempty"`
 	MaxAmmoSize int   `json:"maxammosize,omitempty"`
+	// generic json provider: the data source its `source` option names (one of jsonSources; "" = "file")
+	Source string `json:"source,omitempty"`
+}
+
+// The data sources of the generic JSON (decode) provider. The first three are what a config can name (core/import registers
+// file, stdin and inline; the string shorthand `source: <path>` is not generated - core/import never installs its
+// sourceStringHook, so such a config is rejected, which is no matter of this property); the last three are what a custom
+// pandora passes to provider.NewJSONProvider itself (datasource.NewReader over a strings.Reader / an
+// open file, datasource.NewString). Every one of them can be read again from its start, so limit and passes mean for
+// all of them what they mean for a file. (A pipe cannot be re-read - "Ammo data source can't sought, so will be read only
+// once" - and is not generated: stdin is a regular file, as with `pandora conf.yaml < ammo.json`.)
+var jsonSources = []string{"file", "inline", "stdin", "reader_strings", "reader_file", "string"}
+
+func (c Case) source() string {
+	if c.Source == "" {
+		return "file"
+	}
+	return c.Source
 }
 
 // kinds that have the chosencases and maxammosize options
@@ -135,7 +157,8 @@ func isHTTP(k string) bool {
 
 func genCase(t *rapid.T) Case {
 	c := Case{}
-	c.Kind = rapid.SampledFrom(kinds).Draw(t, "kind")
+	// the generic json provider is drawn three times as often as the others: it alone has the data-source dimension
+	c.Kind = rapid.SampledFrom(append(append([]string{}, kinds...), "json", "json")).Draw(t, "kind")
 	if isHTTP(c.Kind) {
 		c.Preload = rapid.Bool().Draw(t, "preload")
 	}
@@ -165,6 +188,7 @@ func genCase(t *rapid.T) Case {
 	}
 	if c.Kind == "json" {
 		c.Queue = rapid.SampledFrom([]int{0, 1, 4, 64}).Draw(t, "queue")
+		c.Source = rapid.SampledFrom(jsonSources).Draw(t, "source")
 	}
 	if hasFilter(c.Kind) {
 		switch rapid.SampledFrom([]string{"", "", "", "subset", "subset", "nothing"}).Draw(t, "chosencases") {
@@ -253,8 +277,78 @@ func simpleFile(format string, n int, sizes func(int) int) ag.File {
 	return f
 }
 
-// buildConf writes the ammo file(s) for the case and returns the provider config.
-func buildConf(c Case) (conf map[string]any, cleanup func(), err error) {
+// stdinMu guards os.Stdin, which the stdin data source reads when it is constructed.
+var stdinMu sync.Mutex
+
+// buildProvider writes the ammo file(s) for the case and builds the provider: through config decoding, except for the
+// generic json provider over a source that only a custom pandora can pass (see jsonSources).
+func buildProvider(c Case) (p core.Provider, cleanup func(), err error) {
+	conf, content, cleanup, err := buildConf(c)
+	if err != nil {
+		return nil, cleanup, err
+	}
+	if c.Kind != "json" {
+		p, err = provrun.Build(conf)
+		return p, cleanup, err
+	}
+	switch c.source() {
+	case "stdin":
+		// a regular file stands in for the redirected standard input
+		f, e := os.CreateTemp("", "verif-c08-stdin-")
+		if e != nil {
+			return nil, cleanup, e
+		}
+		prev := cleanup
+		cleanup = func() { prev(); f.Close(); os.Remove(f.Name()) }
+		if _, e = f.WriteString(content); e == nil {
+			_, e = f.Seek(0, io.SeekStart)
+		}
+		if e != nil {
+			return nil, cleanup, e
+		}
+		stdinMu.Lock()
+		saved := os.Stdin
+		os.Stdin = f
+		p, err = provrun.Build(conf)
+		os.Stdin = saved
+		stdinMu.Unlock()
+		return p, cleanup, err
+	case "reader_strings", "reader_file", "string":
+		jc := provider.DefaultJSONProviderConfig()
+		jc.Decode.Limit, jc.Decode.Passes = c.Limit, c.Passes
+		if c.Queue > 0 {
+			jc.Decode.Queue.AmmoQueueSize = c.Queue
+		}
+		switch c.source() {
+		case "reader_strings":
+			jc.Decode.Source = datasource.NewReader(strings.NewReader(content))
+		case "string":
+			jc.Decode.Source = datasource.NewString(content)
+		case "reader_file":
+			name := pand.WriteFile("c08", ".json", []byte(content))
+			f, e := pand.FS().Open(name)
+			prev := cleanup
+			cleanup = func() {
+				prev()
+				if f != nil {
+					f.Close()
+				}
+				pand.Remove(name)
+			}
+			if e != nil {
+				return nil, cleanup, e
+			}
+			jc.Decode.Source = datasource.NewReader(f)
+		}
+		return provider.NewJSONProvider(func() core.Ammo { return &map[string]interface{}{} }, jc), cleanup, nil
+	}
+	p, err = provrun.Build(conf)
+	return p, cleanup, err
+}
+
+// buildConf writes the ammo file(s) for the case and returns the provider config (and, for the generic json provider,
+// the text of its source).
+func buildConf(c Case) (conf map[string]any, content string, cleanup func(), err error) {
 	var files []string
 	cleanup = func() {
 		for _, f := range files {
@@ -331,23 +425,35 @@ func buildConf(c Case) (conf map[string]any, cleanup func(), err error) {
 			fmt.Fprintf(&sb, "{\"n\": %d}\n", i)
 		}
 		conf["type"] = "json"
-		conf["source"] = map[string]any{"type": "file", "path": write(".json", []byte(sb.String()+tail))}
+		content = sb.String() + tail
+		switch c.source() {
+		case "file":
+			conf["source"] = map[string]any{"type": "file", "path": write(".json", []byte(content))}
+		case "inline":
+			conf["source"] = map[string]any{"type": "inline", "data": content}
+		case "stdin":
+			conf["source"] = map[string]any{"type": "stdin"}
+		case "reader_strings", "reader_file", "string":
+			// built by buildProvider
+		default:
+			return nil, "", cleanup, fmt.Errorf("bad source %q", c.Source)
+		}
 		if c.Queue > 0 {
 			conf["ammo-queue-size"] = c.Queue
 		}
 	default:
-		return nil, cleanup, fmt.Errorf("bad kind %s", c.Kind)
+		return nil, "", cleanup, fmt.Errorf("bad kind %s", c.Kind)
 	}
-	return conf, cleanup, nil
+	return conf, content, cleanup, nil
 }
 
 const hangDeadline = 5 * time.Second
 
 func check(c Case, o *vf.Obs) error {
-	conf, cleanup, err := buildConf(c)
+	p, cleanup, err := buildProvider(c)
 	defer cleanup()
 	if err != nil {
-		return err
+		return fmt.Errorf("valid provider config rejected: %v (%+v)", err, c)
 	}
 	X := -1 // unbounded
 	if c.Limit > 0 {
@@ -356,10 +462,6 @@ func check(c Case, o *vf.Obs) error {
 	eff := c.effEntries() // the entries the test uses: all of the file, or those chosencases lists
 	if c.Passes > 0 && (X < 0 || c.Passes*eff < X) {
 		X = c.Passes * eff
-	}
-	p, err := provrun.Build(conf)
-	if err != nil {
-		return fmt.Errorf("valid provider config rejected: %v (%v)", err, conf)
 	}
 	o.Class("kind_" + c.Kind)
 	switch {
@@ -378,6 +480,15 @@ func check(c Case, o *vf.Obs) error {
 	o.ClassIf(c.Filter == "subset", "chosencases_subset")
 	o.ClassIf(c.Filter == "subset" && eff < c.Entries, "chosencases_proper_subset")
 	o.ClassIf(c.MaxAmmoSize > 0, "maxammosize_set")
+	if c.Kind == "json" {
+		// "read_again" = the bounds need the source to be read from its start more than once
+		o.Class("json/source_" + c.source())
+		again := X < 0 || X > eff
+		o.ClassIf(again, "json/source_"+c.source()+"/read_again")
+		o.ClassIf(again && c.Limit > 0, "json/source_"+c.source()+"/read_again_to_limit")
+		o.ClassIf(again && c.Limit == 0 && c.Passes > 0, "json/source_"+c.source()+"/read_again_passes_only")
+		o.ClassIf(X < 0, "json/source_"+c.source()+"/read_again_unbounded")
+	}
 	o.ClassIf(c.maxSize() > 0 && c.maxSize() <= defaultMaxEntry, "entries_1k_to_48k")
 	if c.maxSize() > defaultMaxEntry {
 		// an entry above the default bound of one entry, legal because maxammosize is raised; "reread" = the bounds need
@@ -476,6 +587,12 @@ func checkLive(c Case, p core.Provider, want int, o *vf.Obs) error {
 // extras describes the options beyond the bounds for messages ("" when none is set).
 func (c Case) extras() string {
 	var sb strings.Builder
+	if c.Kind == "json" {
+		fmt.Fprintf(&sb, " source=%s", c.source())
+		if c.Queue > 0 {
+			fmt.Fprintf(&sb, " ammo-queue-size=%d", c.Queue)
+		}
+	}
 	switch c.Filter {
 	case "subset":
 		fmt.Fprintf(&sb, " chosencases=tags of entries %v", c.Chosen)
